@@ -148,7 +148,7 @@ Section Run.
     parse_body rec C S frs fuel' pub cn tn sels at_ eb tv = Ok (out, pub', sk) ->
     (mem cn pub = true /\ out = [] /\ pub' = pub /\ sk = true) \/
     (mem cn pub = false /\ exists fields0 mixins pfl extra,
-        resolve fuel' S frs sels tn = Ok (fields0, mixins) /\
+        resolve fuel' S frs false sels tn = Ok (fields0, mixins) /\
         fields_run (add_typename_field at_ fields0) (pub ++ [cn]) pfl extra pub' sk /\
         exists kept, remove_inherited fuel' S frs mixins = Ok kept /\
         out = {| c_name := cn; c_bases := class_bases mixins kept eb; c_fields := pfl |} :: extra).
@@ -275,11 +275,11 @@ Definition node_of_fnode (under : bool) (f : fnode) : cnode :=
   {| n_key := field_key f; n_name := fn_name f; n_cond := under || fn_cond f; n_sub := fn_sub f |}.
 
 Lemma resolve_fields_only S frs root : forall fuel sels,
-  fields_only sels = true -> resolve (Datatypes.S fuel) S frs sels root = Ok (fnodes_of sels, []).
+  fields_only sels = true -> resolve (Datatypes.S fuel) S frs false sels root = Ok (fnodes_of sels, []).
 Proof.
   intros fuel sels. simpl.
   assert (G : forall l0 m0, fields_only sels = true ->
-            fold_left (resolve_step (resolve fuel S frs) S frs root) sels (Ok (l0, m0))
+            fold_left (resolve_step (resolve fuel S frs) S frs root false) sels (Ok (l0, m0))
             = Ok (l0 ++ fnodes_of sels, m0)).
   { induction sels as [|s sels IH]; intros l0 m0 H; simpl.
     - rewrite app_nil_r. reflexivity.
@@ -288,7 +288,8 @@ Proof.
   intro H. apply (G [] [] H).
 Qed.
 
-Lemma resolve_ok_fuel S frs root fuel sels r : resolve fuel S frs sels root = Ok r -> exists k, fuel = Datatypes.S k.
+Lemma resolve_ok_fuel S frs root fuel under sels r :
+  resolve fuel S frs under sels root = Ok r -> exists k, fuel = Datatypes.S k.
 Proof. destruct fuel; [discriminate | eauto]. Qed.
 
 Lemma collect_fields_only S frs rt under : forall fuel sels,
@@ -356,55 +357,58 @@ Qed.
 (* fragments are flattened by both; a spread the generator turns into a mixin base class is         *)
 (* recorded (second component) — the executor collects its fields in place.                        *)
 
-Definition flattenM_step (rec : string -> list sel -> option (list fnode * list string))
-           (S : schema) (frs : list fragdef) (rt r : string)
+Definition flattenM_step (rec : string -> bool -> list sel -> option (list fnode * list string))
+           (S : schema) (frs : list fragdef) (rt r : string) (under : bool)
            (acc : option (list fnode * list string)) (s : sel) : option (list fnode * list string) :=
   match acc with
   | None => None
   | Some (l, ms) =>
       match s with
-      | SField al n c mx sub => Some (l ++ [fnode_of al n c mx sub], ms)
-      | SInline tc false sub =>
-          (* a missing type condition means the enclosing type (generator) / always applies (executor) *)
+      | SField al n c mx sub => Some (l ++ [fnode_of al n (under || c) mx sub], ms)
+      | SInline tc c sub =>
+          (* a missing type condition means the enclosing type (generator) / always applies (executor);
+             a conditional container makes everything below conditional on both sides *)
           match inline_root_type S (match tc with Some tc => tc | None => r end) r,
                 (match tc with None => true | Some t => type_applies S rt t end) with
-          | Some r', true => match rec r' sub with
+          | Some r', true => match rec r' (under || c) sub with
                              | Some (l', ms') => Some (l ++ l', ms ++ ms') | None => None end
           | None, false => Some (l, ms)
           | _, _ => None
           end
-      | SSpread n false =>
+      | SSpread n c =>
           match lookup_frag frs n with
           | Some f =>
               match lookup_type S r, lookup_type S (fr_on f) with
               | Some _, Some fd =>
-                  if unpack_fragment S f (Some r) then
+                  if negb (under || c) && negb (unpack_fragment S f (Some r))
+                  then (if type_applies S rt (fr_on f) then Some (l, ms ++ [n]) else None)
+                  else
                     if String.eqb (fr_on f) r || (is_abstract fd && is_sub_type S (fr_on f) r)
                     then (if type_applies S rt (fr_on f)
-                          then match rec r (fr_sel f) with
+                          then match rec r (under || c) (fr_sel f) with
                                | Some (l', ms') => Some (l ++ l', ms ++ ms') | None => None end
                           else None)
                     else (if type_applies S rt (fr_on f) then None else Some (l, ms))
-                  else (if type_applies S rt (fr_on f) then Some (l, ms ++ [n]) else None)
               | _, _ => None
               end
           | None => None
           end
-      | _ => None
       end
   end.
 
-Fixpoint flattenM (fuel : nat) (S : schema) (frs : list fragdef) (rt r : string) (sels : list sel)
-  : option (list fnode * list string) :=
+Fixpoint flattenM (fuel : nat) (S : schema) (frs : list fragdef) (rt r : string) (under : bool)
+         (sels : list sel) : option (list fnode * list string) :=
   match fuel with
   | O => None
-  | Datatypes.S g => fold_left (flattenM_step (flattenM g S frs rt) S frs rt r) sels (Some ([], []))
+  | Datatypes.S g => fold_left (flattenM_step (flattenM g S frs rt) S frs rt r under) sels (Some ([], []))
   end.
 
-Lemma flattenM_fold_none rec S frs rt r sels : fold_left (flattenM_step rec S frs rt r) sels None = None.
+Lemma flattenM_fold_none rec S frs rt r under sels :
+  fold_left (flattenM_step rec S frs rt r under) sels None = None.
 Proof. induction sels; simpl; auto. Qed.
 
-Lemma resolve_fold_err rec S frs r sels m : fold_left (resolve_step rec S frs r) sels (Err m) = Err m.
+Lemma resolve_fold_err rec S frs r under sels m :
+  fold_left (resolve_step rec S frs r under) sels (Err m) = Err m.
 Proof. induction sels; simpl; auto. Qed.
 
 Lemma collect_fold_none rec S frs rt under sels :
@@ -417,116 +421,114 @@ Section Agree.
   Ltac kill Hf := rewrite flattenM_fold_none in Hf; discriminate Hf.
 
   (* resolve: whenever it succeeds it returns the flattened fields and the recorded mixins *)
-  Lemma flattenM_resolve_det : forall g f r sels x0 x,
-    flattenM g S frs rt r sels = Some x0 -> resolve f S frs sels r = Ok x -> x = x0.
+  Lemma flattenM_resolve_det : forall g f r under sels x0 x,
+    flattenM g S frs rt r under sels = Some x0 -> resolve f S frs under sels r = Ok x -> x = x0.
   Proof.
-    induction g as [|g IH]; intros f r sels x0 x Hf Hr; [discriminate Hf|].
+    induction g as [|g IH]; intros f r under sels x0 x Hf Hr; [discriminate Hf|].
     destruct f as [|f]; [discriminate Hr|]. simpl in Hf, Hr.
     assert (G : forall sels l1 m1 l0 m0 x0 x,
-              fold_left (flattenM_step (flattenM g S frs rt) S frs rt r) sels (Some (l1, m1)) = Some x0 ->
-              fold_left (resolve_step (resolve f S frs) S frs r) sels (Ok (l0, m0)) = Ok x ->
+              fold_left (flattenM_step (flattenM g S frs rt) S frs rt r under) sels (Some (l1, m1)) = Some x0 ->
+              fold_left (resolve_step (resolve f S frs) S frs r under) sels (Ok (l0, m0)) = Ok x ->
               exists d e, x0 = (l1 ++ d, m1 ++ e) /\ x = (l0 ++ d, m0 ++ e)).
     { clear Hf Hr x0 x sels. induction sels as [|s sels IHs]; intros l1 m1 l0 m0 x0 x Hf Hr; simpl in Hf, Hr.
       - inversion Hf; inversion Hr; subst. exists [], []. rewrite !app_nil_r. auto.
       - destruct s as [al n c ms sub | n c | tc c sub].
         + simpl in Hf, Hr. destruct (IHs _ _ _ _ _ _ Hf Hr) as [d [e [H1 H2]]].
-          exists (fnode_of al n c ms sub :: d), e. subst. rewrite <- !app_assoc. auto.
-        + simpl in Hf, Hr. destruct c; [kill Hf|].
+          exists (fnode_of al n (under || c) ms sub :: d), e. subst. rewrite <- !app_assoc. auto.
+        + simpl in Hf, Hr.
           destruct (lookup_frag frs n) as [fd|]; [| kill Hf].
           destruct (lookup_type S r) as [dr|]; [| kill Hf].
           destruct (lookup_type S (fr_on fd)) as [df|]; [| kill Hf].
-          destruct (unpack_fragment S fd (Some r)); simpl in Hr.
+          destruct (negb (under || c) && negb (unpack_fragment S fd (Some r))); simpl in Hr.
+          * destruct (type_applies S rt (fr_on fd)); [| kill Hf].
+            destruct (IHs _ _ _ _ _ _ Hf Hr) as [d [e [H1 H2]]]. exists d, (n :: e). subst.
+            rewrite <- !app_assoc. auto.
           * destruct (String.eqb (fr_on fd) r || (is_abstract df && is_sub_type S (fr_on fd) r)).
             -- destruct (type_applies S rt (fr_on fd)); [| kill Hf].
-               destruct (flattenM g S frs rt r (fr_sel fd)) as [[l' ms']|] eqn:El; [| kill Hf].
-               destruct (resolve f S frs (fr_sel fd) r) as [q|m] eqn:Eq; simpl in Hr;
+               destruct (flattenM g S frs rt r (under || c) (fr_sel fd)) as [[l' ms']|] eqn:El; [| kill Hf].
+               destruct (resolve f S frs (under || c) (fr_sel fd) r) as [q|m] eqn:Eq; simpl in Hr;
                  [| rewrite resolve_fold_err in Hr; discriminate].
-               rewrite (IH _ _ _ _ _ El Eq) in Hr. simpl in Hr.
+               rewrite (IH _ _ _ _ _ _ El Eq) in Hr. simpl in Hr.
                destruct (IHs _ _ _ _ _ _ Hf Hr) as [d [e [H1 H2]]]. exists (l' ++ d), (ms' ++ e). subst.
                rewrite <- !app_assoc. auto.
             -- destruct (type_applies S rt (fr_on fd)); [kill Hf|].
                apply (IHs _ _ _ _ _ _ Hf Hr).
-          * destruct (type_applies S rt (fr_on fd)); [| kill Hf].
-            destruct (IHs _ _ _ _ _ _ Hf Hr) as [d [e [H1 H2]]]. exists d, (n :: e). subst.
-            rewrite <- !app_assoc. auto.
         + simpl in Hf, Hr.
-          destruct c; [kill Hf|].
           destruct (inline_root_type S (match tc with Some tc0 => tc0 | None => r end) r) as [r'|].
-          * destruct ((match tc with None => true | Some t => type_applies S rt t end)); [| kill Hf].
-            destruct (flattenM g S frs rt r' sub) as [[l' ms']|] eqn:El; [| kill Hf].
-            destruct (resolve f S frs sub r') as [q|m] eqn:Eq; simpl in Hr;
+          * destruct (match tc with None => true | Some t => type_applies S rt t end); [| kill Hf].
+            destruct (flattenM g S frs rt r' (under || c) sub) as [[l' ms']|] eqn:El; [| kill Hf].
+            destruct (resolve f S frs (under || c) sub r') as [q|m] eqn:Eq; simpl in Hr;
               [| rewrite resolve_fold_err in Hr; discriminate].
-            rewrite (IH _ _ _ _ _ El Eq) in Hr. simpl in Hr.
+            rewrite (IH _ _ _ _ _ _ El Eq) in Hr. simpl in Hr.
             destruct (IHs _ _ _ _ _ _ Hf Hr) as [d [e [H1 H2]]]. exists (l' ++ d), (ms' ++ e). subst.
             rewrite <- !app_assoc. auto.
-          * destruct ((match tc with None => true | Some t => type_applies S rt t end)); [kill Hf|].
+          * destruct (match tc with None => true | Some t => type_applies S rt t end); [kill Hf|].
             apply (IHs _ _ _ _ _ _ Hf Hr). }
     destruct (G _ _ _ _ _ _ _ Hf Hr) as [d [e [H1 H2]]]. simpl in *. subst. reflexivity.
   Qed.
 
-  (* collect: without a mixin, whenever it succeeds it returns the nodes of the flattened fields *)
+  (* collect: without a mixin, whenever it succeeds it returns the nodes of the flattened fields (whose
+     fn_cond already carries the enclosing conditions) *)
   Lemma flattenM_collect_det : forall g f r under sels fns ms l,
-    flattenM g S frs rt r sels = Some (fns, ms) -> collect f S frs rt under sels = Some l ->
-    ms = [] -> l = map (node_of_fnode under) fns.
+    flattenM g S frs rt r under sels = Some (fns, ms) -> collect f S frs rt under sels = Some l ->
+    ms = [] -> l = map (node_of_fnode false) fns.
   Proof.
     induction g as [|g IH]; intros f r under sels fns ms l Hf Hc Hm; [discriminate Hf|].
     destruct f as [|f]; [discriminate Hc|]. simpl in Hf, Hc.
     assert (G : forall sels l1 m1 l0 x0 l,
-              fold_left (flattenM_step (flattenM g S frs rt) S frs rt r) sels (Some (l1, m1)) = Some x0 ->
+              fold_left (flattenM_step (flattenM g S frs rt) S frs rt r under) sels (Some (l1, m1)) = Some x0 ->
               fold_left (collect_step (collect f S frs rt) S frs rt under) sels (Some l0) = Some l ->
-              exists d e, x0 = (l1 ++ d, m1 ++ e) /\ (e = [] -> l = l0 ++ map (node_of_fnode under) d)).
+              exists d e, x0 = (l1 ++ d, m1 ++ e) /\ (e = [] -> l = l0 ++ map (node_of_fnode false) d)).
     { clear Hf Hc Hm fns ms l sels. induction sels as [|s sels IHs]; intros l1 m1 l0 x0 l Hf Hc; simpl in Hf, Hc.
       - inversion Hf; inversion Hc; subst. exists [], []. simpl. rewrite !app_nil_r. auto.
       - destruct s as [al n c ms sub | n c | tc c sub].
         + simpl in Hf, Hc. destruct (IHs _ _ _ _ _ Hf Hc) as [d [e [H1 H2]]].
-          exists (fnode_of al n c ms sub :: d), e. subst. simpl. rewrite <- !app_assoc. split; [reflexivity|].
-          intro He. rewrite (H2 He), <- app_assoc. reflexivity.
-        + simpl in Hf, Hc. destruct c; [kill Hf|].
+          exists (fnode_of al n (under || c) ms sub :: d), e. subst. simpl. rewrite <- !app_assoc.
+          split; [reflexivity|]. intro He. rewrite (H2 He), <- app_assoc. reflexivity.
+        + simpl in Hf, Hc.
           destruct (lookup_frag frs n) as [fd|]; [| kill Hf].
           destruct (lookup_type S r) as [dr|]; [| kill Hf].
           destruct (lookup_type S (fr_on fd)) as [df|]; [| kill Hf].
-          rewrite orb_false_r in Hc.
-          destruct (unpack_fragment S fd (Some r)).
+          destruct (negb (under || c) && negb (unpack_fragment S fd (Some r))).
+          * destruct (type_applies S rt (fr_on fd)); [| kill Hf].
+            destruct (collect f S frs rt (under || c) (fr_sel fd)) as [q|] eqn:Eq;
+              [| rewrite collect_fold_none in Hc; discriminate].
+            destruct (IHs _ _ _ _ _ Hf Hc) as [d [e [H1 H2]]]. exists d, (n :: e). subst.
+            rewrite <- !app_assoc. split; [reflexivity|]. intro He. discriminate He.
           * destruct (String.eqb (fr_on fd) r || (is_abstract df && is_sub_type S (fr_on fd) r)).
             -- destruct (type_applies S rt (fr_on fd)); [| kill Hf].
-               destruct (flattenM g S frs rt r (fr_sel fd)) as [[l' ms']|] eqn:El; [| kill Hf].
-               destruct (collect f S frs rt under (fr_sel fd)) as [q|] eqn:Eq;
+               destruct (flattenM g S frs rt r (under || c) (fr_sel fd)) as [[l' ms']|] eqn:El; [| kill Hf].
+               destruct (collect f S frs rt (under || c) (fr_sel fd)) as [q|] eqn:Eq;
                  [| rewrite collect_fold_none in Hc; discriminate].
                destruct (IHs _ _ _ _ _ Hf Hc) as [d [e [H1 H2]]]. exists (l' ++ d), (ms' ++ e). subst.
                rewrite <- !app_assoc. split; [reflexivity|]. intro He. apply app_eq_nil in He as [He1 He2].
                rewrite (H2 He2), (IH _ _ _ _ _ _ _ El Eq He1), map_app, <- !app_assoc. reflexivity.
             -- destruct (type_applies S rt (fr_on fd)); [kill Hf|].
                apply (IHs _ _ _ _ _ Hf Hc).
-          * destruct (type_applies S rt (fr_on fd)); [| kill Hf].
-            destruct (collect f S frs rt under (fr_sel fd)) as [q|] eqn:Eq;
-              [| rewrite collect_fold_none in Hc; discriminate].
-            destruct (IHs _ _ _ _ _ Hf Hc) as [d [e [H1 H2]]]. exists d, (n :: e). subst.
-            rewrite <- !app_assoc. split; [reflexivity|]. intro He. discriminate He.
         + simpl in Hf, Hc.
-          destruct c; [kill Hf|]. rewrite orb_false_r in Hc.
           destruct (inline_root_type S (match tc with Some tc0 => tc0 | None => r end) r) as [r'|].
-          * destruct ((match tc with None => true | Some t => type_applies S rt t end)); [| kill Hf].
-            destruct (flattenM g S frs rt r' sub) as [[l' ms']|] eqn:El; [| kill Hf].
-            destruct (collect f S frs rt under sub) as [q|] eqn:Eq;
+          * destruct (match tc with None => true | Some t => type_applies S rt t end); [| kill Hf].
+            destruct (flattenM g S frs rt r' (under || c) sub) as [[l' ms']|] eqn:El; [| kill Hf].
+            destruct (collect f S frs rt (under || c) sub) as [q|] eqn:Eq;
               [| rewrite collect_fold_none in Hc; discriminate].
             destruct (IHs _ _ _ _ _ Hf Hc) as [d [e [H1 H2]]]. exists (l' ++ d), (ms' ++ e). subst.
             rewrite <- !app_assoc. split; [reflexivity|]. intro He. apply app_eq_nil in He as [He1 He2].
             rewrite (H2 He2), (IH _ _ _ _ _ _ _ El Eq He1), map_app, <- !app_assoc. reflexivity.
-          * destruct ((match tc with None => true | Some t => type_applies S rt t end)); [kill Hf|].
+          * destruct (match tc with None => true | Some t => type_applies S rt t end); [kill Hf|].
             apply (IHs _ _ _ _ _ Hf Hc). }
     destruct (G _ _ _ _ _ _ Hf Hc) as [d [e [H1 H2]]]. simpl in H1. inversion H1; subst.
     rewrite (H2 eq_refl). reflexivity.
   Qed.
 
-  (* collect with mixins: the nodes of the own fields, and the nodes of every mixin fragment, are among
-     the collected nodes *)
-  Lemma flattenM_collect_mix : forall g f r sels fns ms l,
-    flattenM g S frs rt r sels = Some (fns, ms) -> collect f S frs rt false sels = Some l ->
+  (* collect with mixins: the nodes of the own fields, and the nodes of every mixin fragment (a mixin is
+     only ever recorded outside conditional containers), are among the collected nodes *)
+  Lemma flattenM_collect_mix : forall g f r under sels fns ms l,
+    flattenM g S frs rt r under sels = Some (fns, ms) -> collect f S frs rt under sels = Some l ->
     (forall x, In x fns -> In (node_of_fnode false x) l) /\
     (forall m, In m ms -> exists fm k lm, lookup_frag frs m = Some fm /\
                  collect k S frs rt false (fr_sel fm) = Some lm /\ incl lm l).
   Proof.
-    induction g as [|g IH]; intros f r sels fns ms l Hf Hc; [discriminate Hf|].
+    induction g as [|g IH]; intros f r under sels fns ms l Hf Hc; [discriminate Hf|].
     destruct f as [|f]; [discriminate Hc|]. simpl in Hf, Hc.
     set (PM := fun (l : list cnode) (m : string) =>
                  exists fm k lm, lookup_frag frs m = Some fm /\
@@ -535,8 +537,8 @@ Section Agree.
     { intros a b m Hab [fm [k [lm [H1 [H2 H3]]]]]. exists fm, k, lm. repeat split; auto.
       eapply incl_tran; eauto. }
     assert (G : forall sels l1 m1 l0 fns ms l,
-              fold_left (flattenM_step (flattenM g S frs rt) S frs rt r) sels (Some (l1, m1)) = Some (fns, ms) ->
-              fold_left (collect_step (collect f S frs rt) S frs rt false) sels (Some l0) = Some l ->
+              fold_left (flattenM_step (flattenM g S frs rt) S frs rt r under) sels (Some (l1, m1)) = Some (fns, ms) ->
+              fold_left (collect_step (collect f S frs rt) S frs rt under) sels (Some l0) = Some l ->
               incl l0 l /\
               (forall x, In x fns -> In x l1 \/ In (node_of_fnode false x) l) /\
               (forall m, In m ms -> In m m1 \/ PM l m)).
@@ -548,17 +550,27 @@ Section Agree.
           intros x Hx. destruct (I1 x Hx) as [H | H]; [| right; exact H].
           apply in_app_or in H. destruct H as [H | [H | []]]; [left; exact H|]. subst x. right.
           apply I0. apply in_or_app. right. left. reflexivity.
-        + simpl in Hf, Hc. destruct c; [kill Hf|].
+        + simpl in Hf, Hc.
           destruct (lookup_frag frs n) as [fd|] eqn:Elf; [| kill Hf].
           destruct (lookup_type S r) as [dr|]; [| kill Hf].
           destruct (lookup_type S (fr_on fd)) as [df|]; [| kill Hf].
-          destruct (unpack_fragment S fd (Some r)).
+          destruct (negb (under || c) && negb (unpack_fragment S fd (Some r))) eqn:Emx.
+          * apply andb_true_iff in Emx as [Eu _]. apply negb_true_iff in Eu. rewrite Eu in Hc.
+            destruct (type_applies S rt (fr_on fd)); [| kill Hf].
+            destruct (collect f S frs rt false (fr_sel fd)) as [q|] eqn:Eq;
+              [| rewrite collect_fold_none in Hc; discriminate].
+            destruct (IHs _ _ _ _ _ _ Hf Hc) as [I0 [I1 I2]].
+            assert (Hq : incl q l) by (eapply incl_tran; [apply incl_appr, incl_refl | exact I0]).
+            split; [eapply incl_tran; [apply incl_appl, incl_refl | exact I0]|]. split; [exact I1|].
+            intros m Hm. destruct (I2 m Hm) as [H | H]; [| right; exact H].
+            apply in_app_or in H. destruct H as [H | [H | []]]; [left; exact H|]. subst m. right.
+            exists fd, f, q. auto.
           * destruct (String.eqb (fr_on fd) r || (is_abstract df && is_sub_type S (fr_on fd) r)).
             -- destruct (type_applies S rt (fr_on fd)); [| kill Hf].
-               destruct (flattenM g S frs rt r (fr_sel fd)) as [[l' ms']|] eqn:El; [| kill Hf].
-               destruct (collect f S frs rt false (fr_sel fd)) as [q|] eqn:Eq;
+               destruct (flattenM g S frs rt r (under || c) (fr_sel fd)) as [[l' ms']|] eqn:El; [| kill Hf].
+               destruct (collect f S frs rt (under || c) (fr_sel fd)) as [q|] eqn:Eq;
                  [| rewrite collect_fold_none in Hc; discriminate].
-               destruct (IH _ _ _ _ _ _ El Eq) as [J1 J2].
+               destruct (IH _ _ _ _ _ _ _ El Eq) as [J1 J2].
                destruct (IHs _ _ _ _ _ _ Hf Hc) as [I0 [I1 I2]].
                assert (Hq : incl q l) by (eapply incl_tran; [apply incl_appr, incl_refl | exact I0]).
                split; [eapply incl_tran; [apply incl_appl, incl_refl | exact I0]|]. split.
@@ -569,23 +581,13 @@ Section Agree.
                   eapply PMmono; [exact Hq | apply J2, H].
             -- destruct (type_applies S rt (fr_on fd)); [kill Hf|].
                apply (IHs _ _ _ _ _ _ Hf Hc).
-          * destruct (type_applies S rt (fr_on fd)); [| kill Hf].
-            destruct (collect f S frs rt false (fr_sel fd)) as [q|] eqn:Eq;
-              [| rewrite collect_fold_none in Hc; discriminate].
-            destruct (IHs _ _ _ _ _ _ Hf Hc) as [I0 [I1 I2]].
-            assert (Hq : incl q l) by (eapply incl_tran; [apply incl_appr, incl_refl | exact I0]).
-            split; [eapply incl_tran; [apply incl_appl, incl_refl | exact I0]|]. split; [exact I1|].
-            intros m Hm. destruct (I2 m Hm) as [H | H]; [| right; exact H].
-            apply in_app_or in H. destruct H as [H | [H | []]]; [left; exact H|]. subst m. right.
-            exists fd, f, q. auto.
         + simpl in Hf, Hc.
-          destruct c; [kill Hf|].
           destruct (inline_root_type S (match tc with Some tc0 => tc0 | None => r end) r) as [r'|].
-          * destruct ((match tc with None => true | Some t => type_applies S rt t end)); [| kill Hf].
-            destruct (flattenM g S frs rt r' sub) as [[l' ms']|] eqn:El; [| kill Hf].
-            destruct (collect f S frs rt false sub) as [q|] eqn:Eq;
+          * destruct (match tc with None => true | Some t => type_applies S rt t end); [| kill Hf].
+            destruct (flattenM g S frs rt r' (under || c) sub) as [[l' ms']|] eqn:El; [| kill Hf].
+            destruct (collect f S frs rt (under || c) sub) as [q|] eqn:Eq;
               [| rewrite collect_fold_none in Hc; discriminate].
-            destruct (IH _ _ _ _ _ _ El Eq) as [J1 J2].
+            destruct (IH _ _ _ _ _ _ _ El Eq) as [J1 J2].
             destruct (IHs _ _ _ _ _ _ Hf Hc) as [I0 [I1 I2]].
             assert (Hq : incl q l) by (eapply incl_tran; [apply incl_appr, incl_refl | exact I0]).
             split; [eapply incl_tran; [apply incl_appl, incl_refl | exact I0]|]. split.
@@ -594,7 +596,7 @@ Section Agree.
             -- intros m Hm. destruct (I2 m Hm) as [H | H]; [| right; exact H].
                apply in_app_or in H. destruct H as [H | H]; [left; exact H | right].
                eapply PMmono; [exact Hq | apply J2, H].
-          * destruct ((match tc with None => true | Some t => type_applies S rt t end)); [kill Hf|].
+          * destruct (match tc with None => true | Some t => type_applies S rt t end); [kill Hf|].
             apply (IHs _ _ _ _ _ _ Hf Hc). }
     destruct (G _ _ _ _ _ _ _ Hf Hc) as [_ [G1 G2]]. split.
     - intros x Hx. destruct (G1 x Hx) as [[] | H]. exact H.
@@ -602,106 +604,107 @@ Section Agree.
   Qed.
 
   (* with at least the guard's fuel resolve succeeds, and so does collect when there is no mixin *)
-  Lemma flattenM_both_ex : forall g r sels fns ms,
-    flattenM g S frs rt r sels = Some (fns, ms) ->
+  Lemma flattenM_both_ex : forall g r under sels fns ms,
+    flattenM g S frs rt r under sels = Some (fns, ms) ->
     forall f, f >= g ->
-      resolve f S frs sels r = Ok (fns, ms) /\
-      (ms = [] -> forall under, collect f S frs rt under sels = Some (map (node_of_fnode under) fns)).
+      resolve f S frs under sels r = Ok (fns, ms) /\
+      (ms = [] -> collect f S frs rt under sels = Some (map (node_of_fnode false) fns)).
   Proof.
-    induction g as [|g IH]; intros r sels fns ms Hf f Hge; [discriminate Hf|].
+    induction g as [|g IH]; intros r under sels fns ms Hf f Hge; [discriminate Hf|].
     destruct f as [|f]; [lia|]. assert (Hge' : f >= g) by lia. simpl in Hf. simpl.
     assert (G : forall sels l1 m1 x0,
-              fold_left (flattenM_step (flattenM g S frs rt) S frs rt r) sels (Some (l1, m1)) = Some x0 ->
+              fold_left (flattenM_step (flattenM g S frs rt) S frs rt r under) sels (Some (l1, m1)) = Some x0 ->
               exists d e, x0 = (l1 ++ d, m1 ++ e) /\
-                (forall l0 m0, fold_left (resolve_step (resolve f S frs) S frs r) sels (Ok (l0, m0))
+                (forall l0 m0, fold_left (resolve_step (resolve f S frs) S frs r under) sels (Ok (l0, m0))
                                = Ok (l0 ++ d, m0 ++ e)) /\
-                (e = [] -> forall under l0,
+                (e = [] -> forall l0,
                      fold_left (collect_step (collect f S frs rt) S frs rt under) sels (Some l0)
-                     = Some (l0 ++ map (node_of_fnode under) d))).
+                     = Some (l0 ++ map (node_of_fnode false) d))).
     { clear Hf fns ms sels. induction sels as [|s sels IHs]; intros l1 m1 x0 Hf; simpl in Hf.
       - inversion Hf; subst. exists [], []. simpl. rewrite !app_nil_r. split; [reflexivity|].
         split; intros; rewrite ?app_nil_r; reflexivity.
       - destruct s as [al n c mx sub | n c | tc c sub].
         + simpl in Hf. destruct (IHs _ _ _ Hf) as [d [e [H1 [H2 H3]]]].
-          exists (fnode_of al n c mx sub :: d), e. subst. split; [rewrite <- app_assoc; reflexivity|].
+          exists (fnode_of al n (under || c) mx sub :: d), e. subst. split; [rewrite <- app_assoc; reflexivity|].
           split; intros; simpl; [rewrite H2 | rewrite H3 by assumption]; rewrite <- app_assoc; reflexivity.
-        + simpl in Hf. destruct c; [kill Hf|].
+        + simpl in Hf.
           destruct (lookup_frag frs n) as [fd|] eqn:Elf; [| kill Hf].
           destruct (lookup_type S r) as [dr|] eqn:Elr; [| kill Hf].
           destruct (lookup_type S (fr_on fd)) as [df|] eqn:Elo; [| kill Hf].
-          destruct (unpack_fragment S fd (Some r)) eqn:Eu.
-          * destruct (String.eqb (fr_on fd) r || (is_abstract df && is_sub_type S (fr_on fd) r)) eqn:Eb.
-            -- destruct (type_applies S rt (fr_on fd)) eqn:Et; [| kill Hf].
-               destruct (flattenM g S frs rt r (fr_sel fd)) as [[l' ms']|] eqn:El; [| kill Hf].
-               destruct (IH _ _ _ _ El f Hge') as [R1 R2].
-               destruct (IHs _ _ _ Hf) as [d [e [H1 [H2 H3]]]]. exists (l' ++ d), (ms' ++ e). subst.
-               split; [rewrite <- !app_assoc; reflexivity|].
-               split.
-               ++ intros; simpl. rewrite Elf, Elr, Elo, Eu, Eb, R1. simpl. rewrite H2, <- !app_assoc. reflexivity.
-               ++ intros He under l0. apply app_eq_nil in He as [He1 He2]. simpl.
-                  rewrite Elf, Et, orb_false_r, (R2 He1), (H3 He2), map_app, <- app_assoc. reflexivity.
-            -- destruct (type_applies S rt (fr_on fd)) eqn:Et; [kill Hf|].
-               destruct (IHs _ _ _ Hf) as [d [e [H1 [H2 H3]]]]. exists d, e. split; [exact H1|].
-               split.
-               ++ intros; simpl. rewrite Elf, Elr, Elo, Eu, Eb. simpl. apply H2.
-               ++ intros He under l0. simpl. rewrite Elf, Et. apply H3, He.
+          destruct (negb (under || c) && negb (unpack_fragment S fd (Some r))) eqn:Eu.
           * destruct (type_applies S rt (fr_on fd)) eqn:Et; [| kill Hf].
             destruct (IHs _ _ _ Hf) as [d [e [H1 [H2 H3]]]]. exists d, (n :: e). subst.
             split; [rewrite <- !app_assoc; reflexivity|]. split.
             -- intros; simpl. rewrite Elf, Elr, Elo, Eu. simpl. rewrite H2, <- !app_assoc. reflexivity.
             -- intro He. discriminate He.
-        + simpl in Hf. destruct c; [kill Hf|].
+          * destruct (String.eqb (fr_on fd) r || (is_abstract df && is_sub_type S (fr_on fd) r)) eqn:Eb.
+            -- destruct (type_applies S rt (fr_on fd)) eqn:Et; [| kill Hf].
+               destruct (flattenM g S frs rt r (under || c) (fr_sel fd)) as [[l' ms']|] eqn:El; [| kill Hf].
+               destruct (IH _ _ _ _ _ El f Hge') as [R1 R2].
+               destruct (IHs _ _ _ Hf) as [d [e [H1 [H2 H3]]]]. exists (l' ++ d), (ms' ++ e). subst.
+               split; [rewrite <- !app_assoc; reflexivity|].
+               split.
+               ++ intros; simpl. rewrite Elf, Elr, Elo, Eu, Eb, R1. simpl. rewrite H2, <- !app_assoc. reflexivity.
+               ++ intros He l0. apply app_eq_nil in He as [He1 He2]. simpl.
+                  rewrite Elf, Et, (R2 He1), (H3 He2), map_app, <- app_assoc. reflexivity.
+            -- destruct (type_applies S rt (fr_on fd)) eqn:Et; [kill Hf|].
+               destruct (IHs _ _ _ Hf) as [d [e [H1 [H2 H3]]]]. exists d, e. split; [exact H1|].
+               split.
+               ++ intros; simpl. rewrite Elf, Elr, Elo, Eu, Eb. simpl. apply H2.
+               ++ intros He l0. simpl. rewrite Elf, Et. apply H3, He.
+        + simpl in Hf.
           destruct (inline_root_type S (match tc with Some tc0 => tc0 | None => r end) r) as [r'|] eqn:Ei.
-          * destruct ((match tc with None => true | Some t => type_applies S rt t end)) eqn:Et; [| kill Hf].
-            destruct (flattenM g S frs rt r' sub) as [[l' ms']|] eqn:El; [| kill Hf].
-            destruct (IH _ _ _ _ El f Hge') as [R1 R2].
+          * destruct (match tc with None => true | Some t => type_applies S rt t end) eqn:Et; [| kill Hf].
+            destruct (flattenM g S frs rt r' (under || c) sub) as [[l' ms']|] eqn:El; [| kill Hf].
+            destruct (IH _ _ _ _ _ El f Hge') as [R1 R2].
             destruct (IHs _ _ _ Hf) as [d [e [H1 [H2 H3]]]]. exists (l' ++ d), (ms' ++ e). subst.
             split; [rewrite <- !app_assoc; reflexivity|].
             split.
             -- intros; simpl. rewrite Ei, R1. simpl. rewrite H2, <- !app_assoc. reflexivity.
-            -- intros He under l0. apply app_eq_nil in He as [He1 He2]. simpl.
-               rewrite Et, orb_false_r, (R2 He1), (H3 He2), map_app, <- app_assoc. reflexivity.
-          * destruct ((match tc with None => true | Some t => type_applies S rt t end)) eqn:Et; [kill Hf|].
+            -- intros He l0. apply app_eq_nil in He as [He1 He2]. simpl.
+               rewrite Et, (R2 He1), (H3 He2), map_app, <- app_assoc. reflexivity.
+          * destruct (match tc with None => true | Some t => type_applies S rt t end) eqn:Et; [kill Hf|].
             destruct (IHs _ _ _ Hf) as [d [e [H1 [H2 H3]]]]. exists d, e. split; [exact H1|].
             split.
             -- intros; simpl. rewrite Ei. apply H2.
-            -- intros He under l0. simpl. rewrite Et. apply H3, He. }
+            -- intros He l0. simpl. rewrite Et. apply H3, He. }
     destruct (G _ _ _ _ Hf) as [d [e [H1 [H2 H3]]]]. simpl in H1. inversion H1; subst d e.
-    split; [apply (H2 [] []) | intros He under; apply (H3 He under [])].
+    split; [apply (H2 [] []) | intros He; apply (H3 He [])].
   Qed.
 End Agree.
 
-(* ---- the mixin-free instance: both sides flatten to the same field list ---- *)
+(* ---- the mixin-free instance at a class position (no enclosing condition): both sides flatten to
+        the same field list ---- *)
 Definition flatten (fuel : nat) (S : schema) (frs : list fragdef) (rt r : string) (sels : list sel)
   : option (list fnode) :=
-  match flattenM fuel S frs rt r sels with
+  match flattenM fuel S frs rt r false sels with
   | Some (fns, []) => Some fns
   | _ => None
   end.
 
 Lemma flatten_M fuel S frs rt r sels fns :
-  flatten fuel S frs rt r sels = Some fns <-> flattenM fuel S frs rt r sels = Some (fns, []).
+  flatten fuel S frs rt r sels = Some fns <-> flattenM fuel S frs rt r false sels = Some (fns, []).
 Proof.
-  unfold flatten. destruct (flattenM fuel S frs rt r sels) as [[l [|m ms]]|]; split; intro H;
+  unfold flatten. destruct (flattenM fuel S frs rt r false sels) as [[l [|m ms]]|]; split; intro H;
     try discriminate H; inversion H; reflexivity.
 Qed.
 
 Lemma flatten_resolve_det S frs rt g f r sels fns x :
-  flatten g S frs rt r sels = Some fns -> resolve f S frs sels r = Ok x -> x = (fns, []).
+  flatten g S frs rt r sels = Some fns -> resolve f S frs false sels r = Ok x -> x = (fns, []).
 Proof. intros H Hr. apply flatten_M in H. eapply flattenM_resolve_det; eauto. Qed.
 
-Lemma flatten_collect_det S frs rt g f r under sels fns l :
-  flatten g S frs rt r sels = Some fns -> collect f S frs rt under sels = Some l ->
-  l = map (node_of_fnode under) fns.
+Lemma flatten_collect_det S frs rt g f r sels fns l :
+  flatten g S frs rt r sels = Some fns -> collect f S frs rt false sels = Some l ->
+  l = map (node_of_fnode false) fns.
 Proof. intros H Hc. apply flatten_M in H. eapply flattenM_collect_det; eauto. Qed.
 
 Lemma flatten_both_ex S frs rt g r sels fns :
   flatten g S frs rt r sels = Some fns ->
   forall f, f >= g ->
-    resolve f S frs sels r = Ok (fns, []) /\
-    (forall under, collect f S frs rt under sels = Some (map (node_of_fnode under) fns)).
+    resolve f S frs false sels r = Ok (fns, []) /\
+    collect f S frs rt false sels = Some (map (node_of_fnode false) fns).
 Proof.
-  intros H f Hge. apply flatten_M in H. destruct (flattenM_both_ex S frs rt _ _ _ _ _ H f Hge) as [R1 R2].
+  intros H f Hge. apply flatten_M in H. destruct (flattenM_both_ex S frs rt _ _ _ _ _ _ H f Hge) as [R1 R2].
   split; [exact R1 | apply R2; reflexivity].
 Qed.
 
@@ -720,7 +723,7 @@ Lemma flatten_fields_only S frs rt r g sels :
 Proof.
   intro H. apply flatten_M. simpl.
   assert (G : forall l0 m0, fields_only sels = true ->
-            fold_left (flattenM_step (flattenM g S frs rt) S frs rt r) sels (Some (l0, m0))
+            fold_left (flattenM_step (flattenM g S frs rt) S frs rt r false) sels (Some (l0, m0))
             = Some (l0 ++ fnodes_of sels, m0)).
   { induction sels as [|s sels IH]; intros l0 m0 H0; simpl.
     - rewrite app_nil_r. reflexivity.
